@@ -226,9 +226,26 @@ def encodeTlv (t : Nat × Bytes) : Bytes := u16 t.1 ++ (u16 t.2.length ++ t.2)
     repair; before it 8, which RFC 8050 assigns to the two-octet-AS add-path message).  `is_asn4` plays no part. -/
 def mpSubtype (_asn4 ap : Bool) : Nat := if ap then 9 else 4
 
+/-- `bmp::bgp_frame_len`: length of the first BGP message of `b` by its header's length field; all of `b`
+    when the header is unusable. -/
+def bgpFrameLen (b : Bytes) : Nat :=
+  if b.length < 19 then b.length
+  else
+    match b.drop 16 with
+    | x :: y :: _ => if x * 256 + y < 19 ∨ b.length < x * 256 + y then b.length else x * 256 + y
+    | _ => b.length
+
+/-- the `loop` of the Route Monitoring / BGP4MP arms: the frames the embedded encoder wrote, one per record
+    (at least one chunk even for an empty buffer; `fuel` = length of the buffer is never exhausted) -/
+def splitFrames : Nat → Bytes → List Bytes
+  | 0, b => [b]
+  | fuel + 1, b =>
+    if b.drop (bgpFrameLen b) = [] then [b.take (bgpFrameLen b)]
+    else b.take (bgpFrameLen b) :: splitFrames fuel (b.drop (bgpFrameLen b))
+
 /-- Bytes appended to the output buffer for one record; `none` = the Rust code panics. -/
 def Rec.encode : Rec → Option Bytes
-  | .bmpRm h _ emb _ => emb.map fun e => bmpMsg 0 (h.encode ++ e)
+  | .bmpRm h _ emb _ => emb.map fun e => (splitFrames e.length e).flatMap fun f => bmpMsg 0 (h.encode ++ f)
   | .bmpUp h la lp rp emb _ _ =>
       emb.map fun e => bmpMsg 3 (h.encode ++ (encodeIp la ++ (u16 lp ++ (u16 rp ++ e))))
   | .bmpDown h r => r.encode.map fun e => bmpMsg 2 (h.encode ++ e)
@@ -236,7 +253,8 @@ def Rec.encode : Rec → Option Bytes
   | .bmpStats => some (bmpMsg 1 [])
   | .bmpTerm => some (bmpMsg 5 [])
   | .bmpMirror => some (bmpMsg 6 [])
-  | .mrtMp h ap emb _ => emb.map fun e => mrtRecord 0 16 (mpSubtype h.asn4 ap) (h.encode ++ e)
+  | .mrtMp h ap emb _ =>
+      emb.map fun e => (splitFrames e.length e).flatMap fun f => mrtRecord 0 16 (mpSubtype h.asn4 ap) (h.encode ++ f)
   | .tdPeers ts rid peers =>
       some (mrtRecord ts 13 1 (rid ++ (u16 0 ++ (u16 peers.length ++ peers.flatMap PeerEnt.encode))))
   | .tdRib v6 ts seq mask addr ents =>
@@ -262,7 +280,7 @@ structure Case where
 
 def embTags : Option Bytes → List String
   | none => ["emb-panic"]
-  | some b => if b.length > 4096 then ["multi-frame"] else []
+  | some b => if b.length > 65535 then ["multi-frame"] else []
 
 def Content.head : Content → String
   | .reach .. => "reach"
